@@ -52,7 +52,12 @@ struct LqRun {
 
     void op_id(const Op& op) {
         Id d; d.hash = unhex(op.s.empty() ? "" : op.s[0]); d.hash.resize(48); d.id.alloc(R.sz(JV_SZ_LQ_ID));
-        { MBytes hm(d.hash.data(), d.hash.size(), (size_t) (1 + (env.lib_calls + (uint64_t) env.step) % 15)); env.lib_calls++; R.jv_lq_compute_id_from_hash(view, d.id, hm.p); } d.Q = q_of(d.id);
+        // one identity in three is converted in place: the caller keeps the 48 digest bytes inside the object that receives the identity (at a
+        // seed-chosen offset) - the two pointer types differ and neither is restrict-qualified
+        if ((d.hash[2] % 3) == 0 && d.id.n >= 48) { size_t off = ((size_t) d.hash[3] % (d.id.n - 48 + 1)) & ~(size_t) 7; memcpy(d.id.p + off, d.hash.data(), 48); env.lib_calls++; R.jv_lq_compute_id_from_hash(view, d.id, d.id.p + off); env.count("probe:in_place_call_output_is_the_input_object"); }
+        else { MBytes hm(d.hash.data(), d.hash.size(), (size_t) (1 + (env.lib_calls + (uint64_t) env.step) % 15)); env.lib_calls++; R.jv_lq_compute_id_from_hash(view, d.id, hm.p); } d.Q = q_of(d.id);
+        // the identity is a function of the digest: the model recomputes it out of place through the reference view
+        { Buf ref(R.sz(JV_SZ_LQ_ID)); MBytes hm2(d.hash.data(), d.hash.size(), 0); R.jv_lq_compute_id_from_hash(1, ref, hm2.p); env.lib_calls++; G1v q2 = q_of(ref); env.check(w.c1(d.Q) == w.c1(q2), "C16", "identity:function-of-digest", "compute_id_from_hash gave a different identity point when the digest bytes were kept inside the identity object"); }
         int ek; env.check((R.jv_g1a_status(R.jv_field(JV_OK_LQ_ID, d.id, 0, 0, &ek)) & 7) == 6, "C16", "identity:in-G1", "identity point is not a non-identity element of the order-r subgroup");
         env.logf("LQID %s", sha_hex(w.c1(d.Q).data(), 97, 8).c_str()); ids.push_back(std::move(d));
     }
